@@ -58,19 +58,32 @@ Definition tape_fun (meth : method) (d1 d2 : nat) (n : option nat) (tape : list 
    Sharing is sound because the harness only groups requests whose recorded tapes are identical. *)
 Inductive sub :=
   Sub (id : nat) (n : option nat) (flip ub : bool) (nn : option nntype) (expected : res (triple Q)).
+Definition fname_eqb (a b : fname) : bool :=
+  match a, b with FTruncated, FTruncated | FSymeig, FSymeig | FRandomized, FRandomized | FUser, FUser => true | _, _ => false end.
+
+(* ftape: the function whose answers the tape holds.  For FTruncated these are LAPACK's answers recorded during the run; for
+   the other functions the harness obtains them by calling THAT function of tensorly directly (not through svd_interface)
+   on every matrix the interface handed to its back end - so a wrong method -> function dispatch in the implementation shows
+   up as a value disagreement, and a wrong `dispatch` in the model finds no tape. *)
 Inductive case :=
-  Group (d1 d2 : nat) (meth : method) (M : qmat) (mask : option qmat) (iters : nat) (tape : list tape_entry) (subs : list sub).
+  Group (d1 d2 : nat) (meth : method) (ftape : fname) (M : qmat) (mask : option qmat) (iters : nat) (tape : list tape_entry) (subs : list sub).
 
 Definition eps64 : Q := Qmake 1 4503599627370496.   (* 2^-52 *)
 
-Definition run_sub (d1 d2 : nat) (meth : method) (M : qmat) (mask : option qmat) (iters : nat) (tape : list tape_entry) (s : sub)
+Definition funs_of_tape (meth : method) (ftape : fname) (d1 d2 : nat) (n : option nat) (tape : list tape_entry)
+  (f : fname) (k : nat) (M' : qmat) : triple Q :=
+  if fname_eqb f ftape then
+    tape_fun (match f with FTruncated => MTruncated | _ => MCallable end) d1 d2 n tape k M'
+  else empty3.
+
+Definition run_sub (d1 d2 : nat) (meth : method) (ftape : fname) (M : qmat) (mask : option qmat) (iters : nat) (tape : list tape_entry) (s : sub)
   : res (triple Q) :=
   let '(Sub _ n flip ub nn _) := s in
-  svd_interface Qops (tape_fun meth d1 d2 n tape) meth d2 M n flip ub nn mask iters qsqrt eps64.
+  svd_interface Qops (funs_of_tape meth ftape d1 d2 n tape) meth d2 M n flip ub nn mask iters qsqrt eps64.
 
-Definition agree_sub (d1 d2 : nat) (meth : method) (M : qmat) (mask : option qmat) (iters : nat) (tape : list tape_entry) (s : sub) : bool :=
+Definition agree_sub (d1 d2 : nat) (meth : method) (ftape : fname) (M : qmat) (mask : option qmat) (iters : nat) (tape : list tape_entry) (s : sub) : bool :=
   let '(Sub _ _ _ _ nn expected) := s in
-  match run_sub d1 d2 meth M mask iters tape s, expected with
+  match run_sub d1 d2 meth ftape M mask iters tape s, expected with
   | Ok a, Ok b => match nn with
                   | None => triple_eqb a b
                   | Some _ => triple_close (Qmake 1 1000000000) (Qmake 1 10000000) a b
@@ -80,8 +93,8 @@ Definition agree_sub (d1 d2 : nat) (meth : method) (M : qmat) (mask : option qma
   end.
 Definition sub_id (s : sub) : nat := let '(Sub i _ _ _ _ _) := s in i.
 Definition failing_group (g : case) : list nat :=
-  let '(Group d1 d2 meth M mask iters tape subs) := g in
-  failing_ids (agree_sub d1 d2 meth M mask iters tape) sub_id subs.
+  let '(Group d1 d2 meth ftape M mask iters tape subs) := g in
+  failing_ids (agree_sub d1 d2 meth ftape M mask iters tape) sub_id subs.
 Definition failing (gs : list case) : list nat := flat_map failing_group gs.
 
 (* ---- direct calls of svd_flip / symeig_svd / randomized_svd (second case type, same shard machinery) ---- *)
